@@ -775,6 +775,61 @@ func memnetBuild(k int) []byte {
 	return memnet.Build(message.NonConfirmable, int(codes.GET), int32(0x3000+k), []byte{0xF0, byte(k)}, message.Options{{ID: message.URIPath, Value: []byte("hang")}}, nil)
 }
 
+// runStopBeforeServe: Stop() is called before Serve has started (the start-up of something else failed; a short-lived process;
+// go Serve() immediately followed by Stop()): the stop is not lost - Serve returns, the server does not go on serving.
+func runStopBeforeServe(transport string) SrvRec {
+	r := SrvRec{Transport: transport, Order: "stop-before-serve", SrvOnClose: [][]int{}, CliOnClose: []int{}}
+	served := make(chan error, 1)
+	switch transport {
+	case "udp":
+		l, err := coapNet.NewListenUDP("udp4", "127.0.0.1:0")
+		if err != nil {
+			rec.Die("listen: %v", err)
+		}
+		defer func() { _ = l.Close() }()
+		sv := udp.NewServer(options.WithErrors(func(error) {}))
+		sv.Stop()
+		go func() { served <- sv.Serve(l) }()
+		defer sv.Stop()
+	case "dtls":
+		l, err := coapNet.NewDTLSListener("udp4", "127.0.0.1:0", pskConfig())
+		if err != nil {
+			rec.Die("listen: %v", err)
+		}
+		defer func() { _ = l.Close() }()
+		sv := dtls.NewServer(options.WithErrors(func(error) {}))
+		sv.Stop()
+		go func() { served <- sv.Serve(l) }()
+		defer sv.Stop()
+	case "tcp":
+		l, err := coapNet.NewTCPListener("tcp4", "127.0.0.1:0")
+		if err != nil {
+			rec.Die("listen: %v", err)
+		}
+		defer func() { _ = l.Close() }()
+		sv := tcp.NewServer(options.WithErrors(func(error) {}))
+		sv.Stop()
+		go func() { served <- sv.Serve(l) }()
+		defer sv.Stop()
+	default:
+		l, err := coapNet.NewTLSListener("tcp4", "127.0.0.1:0", &tls.Config{Certificates: []tls.Certificate{tlsCert}})
+		if err != nil {
+			rec.Die("listen: %v", err)
+		}
+		defer func() { _ = l.Close() }()
+		sv := tcp.NewServer(options.WithErrors(func(error) {}))
+		sv.Stop()
+		go func() { served <- sv.Serve(l) }()
+		defer sv.Stop()
+	}
+	select {
+	case <-served:
+		r.Served = true
+	case <-time.After(wd):
+	}
+	return r
+}
+
 // RunServers executes the server scenarios.
 func RunServers(out string, rounds int) {
 	w := rec.Create(out)
@@ -791,6 +846,7 @@ func RunServers(out string, rounds int) {
 		w.Put(runStopEarly("tls", "handshake"))
 		w.Put(runStopEarly("tcp", "hook"))
 		for _, tr := range []string{"udp", "tcp", "dtls", "tls"} {
+			w.Put(runStopBeforeServe(tr))
 			for _, order := range []string{"stop-first", "clients-first", "listener-first"} {
 				w.Put(runServerStop(tr, order, 1+round%3))
 			}
